@@ -64,6 +64,9 @@ def evalPostfix (op : String) (id : String) : M Obj := do
 
 /-- `evalIndexAssigment` -/
 def evalIndexAssignment (which : Node) (index value : Obj) : M Obj := do
+  -- registers and references are live pointers: store the values they hold now
+  let index ← valueOf index
+  let value ← valueOf value
   match which with
   | .ident id =>
     let e ← curEnv
@@ -106,6 +109,14 @@ def deleteMapEntry (left : Node) (index : Obj) : M Obj := do
           if oerr.isError then pure oerr else pure (.bool true)
       | _ => pure (err "delete index on non map")
   | _ => pure (err "delete index on non identifier")
+
+/-- `object.Value` on every element (an array holds values, never references to variables) -/
+def derefList : List Obj → M (List Obj)
+  | [] => pure []
+  | x :: xs => do
+    let v ← valueOf x
+    let vs ← derefList xs
+    pure (v :: vs)
 
 /-- `Cache.Get` -/
 def cacheGet (key : String) (args : List Obj) : M (Option (Obj × Bytes)) := do
@@ -269,7 +280,7 @@ def evalI : Nat → Node → M Obj
     | .arr els => do
       match ← evalExpressions fuel els [] with
       | .error e => pure e
-      | .ok v => pure (newArray v)
+      | .ok v => do pure (newArray (← derefList v))
     | .mapLit keys vals => do
       let cfg := (← get).cfg
       evalMapLiteral fuel keys vals (newMapBig cfg keys.length) []
@@ -440,7 +451,7 @@ def evalBuiltin : Nat → String → List Node → M Obj
     if t == "ERROR" || t == "PRINT" || t == "PRINTLN" then
       return ← evalPrint fuel t ps true []
     if t == "LOG" then stop (.unmodelled "log")
-    let val ← evalI fuel (ps.headD .none)
+    let val ← valueOf (← evalI fuel (ps.headD .none))
     if val.isError && t != "CATCH" then return val
     match t with
     | "CATCH" =>
@@ -538,10 +549,10 @@ def evalIndexRange : Nat → Obj → Node → Node → M Obj
 def evalMapLiteral : Nat → List Node → List Node → Bool → List (Obj × Obj) → M Obj
   | 0, _, _, _, _ => stop .fuel
   | fuel + 1, k :: ks, v :: vs, big, acc => do
-    let key ← eval fuel k
+    let key ← valueOf (← eval fuel k)
     if key.isError then return key
     if !(← equalsM key key) then return err "key is not hashable"
-    let value ← eval fuel v
+    let value ← valueOf (← eval fuel v)
     if value.isError then return value
     let (big', acc') ← liftR (mapSet (← get).cfg big acc key value)
     evalMapLiteral fuel ks vs big' acc'
